@@ -269,9 +269,15 @@ def prop_statement(sh, case):
             fails.append(('print:directives', f'{stmt!r}\n printed {[sig_of(e)[:3] for e in parsed][:6]!r}\n wanted  {[sig_of(e)[:3] for e in want][:6]!r}'))
         if stmt['from'] is None:
             reloaded, rerrors, _ = loader.load_string(printed)
-            same, missing1, missing2 = compare.compare_entries(entries, reloaded)
-            if not same:
-                fails.append(('print:round-trip', f'{len(missing1)} directives lost, {len(missing2)} invented: {missing1[:1]!r} {missing2[:1]!r}'))
+            # multiset comparison by content hash (identical directives may legitimately occur twice)
+            from beancount.core.compare import hash_entry
+            import collections
+            h1 = collections.Counter(hash_entry(e, True) for e in entries)
+            h2 = collections.Counter(hash_entry(e, True) for e in reloaded)
+            if h1 != h2:
+                lost = [e for e in entries if h2[hash_entry(e, True)] < h1[hash_entry(e, True)]]
+                invented = [e for e in reloaded if h1[hash_entry(e, True)] < h2[hash_entry(e, True)]]
+                fails.append(('print:round-trip', f'{len(lost)} directives lost, {len(invented)} invented: {lost[:1]!r} {invented[:1]!r}'))
         nontrivial = len({type(e).__name__ for e in want}) >= 3
     sh.count(f'{kind}:' + ('qual' if stmt['qual'] else 'plain'))
     sh.record(jsonio.case_hash(case), nontrivial, {'statement': jsonio.short(stmt)} if nontrivial else None, n=2)
